@@ -344,14 +344,16 @@ def concrete_playback(ov, package, meta, harness, extra_args=(), timeout=1800, u
     except subprocess.TimeoutExpired:
         return None, "cargo kani concrete playback timed out after %ds" % timeout
     blocks = re.findall(r"```\n?(.*?)```", p.stdout, re.S)
-    tests = []
+    tests, cover_tests = [], []
     for b in blocks:
+        if "fn kani_concrete_playback" not in b:
+            continue
         m = re.search(r"Check for `([^`]*)`: (.*)", b)
         cls = m.group(1) if m else "?"
-        if cls == "cover":
-            continue
-        if "fn kani_concrete_playback" in b:
-            tests.append(b)
+        # Kani de-duplicates tests with identical values: the counterexample of a failed assertion may only be
+        # printed under a cover it also satisfies, so cover tests are kept as candidates too.
+        (cover_tests if cls == "cover" else tests).append(b)
+    tests = tests + cover_tests
     if not tests:
         return None, p.stdout[-2000:]
-    return "\n".join(tests[:3]), None
+    return "\n".join(tests[:8]), None
